@@ -48,6 +48,10 @@ impl Overlay {
     /// Check whether the parent of this overlay matches the provided marker.
     /// If the provided marker is `None`, then this checks that this overlay doesn't have a parent.
     pub(super) fn parent_matches_marker(&self, marker: Option<&OverlayMarker>) -> bool {
+        // (lock recorder: both callers evaluate `nomt.shared.lock().last_commit_marker.as_ref()` as the
+        // argument, so the temporary guard of `shared` is held while this function runs)
+        #[cfg(nomt_verif)]
+        crate::verif_hook::lock_step("chk_marker");
         match (self.inner.data.parent_status.as_ref(), marker) {
             (None, _) => true,
             (Some(parent), Some(marker)) => parent.ptr_eq(&marker.0),
@@ -75,6 +79,35 @@ impl Overlay {
         let status = self.inner.data.status.clone();
         status.commit();
         OverlayMarker(status)
+    }
+}
+
+/// Verification hooks (compiled only with `--cfg nomt_verif`): the identity of an overlay as the commit-order
+/// check sees it (the address of its status cell; the parent's, if it has one) for the lock recorder.
+#[cfg(nomt_verif)]
+#[allow(missing_docs)]
+impl Overlay {
+    pub fn verif_ids(&self) -> (usize, Option<usize>) {
+        (
+            Arc::as_ptr(&self.inner.data.status.0) as usize,
+            self.inner
+                .data
+                .parent_status
+                .as_ref()
+                .map(|p| Arc::as_ptr(&p.0) as usize),
+        )
+    }
+
+    pub(super) fn verif_call_detail(&self) -> String {
+        let (id, parent) = self.verif_ids();
+        format!(
+            "base={} new={} delta={} id={:x} parent={}",
+            crate::verif_hook::short(&self.inner.prev_root),
+            crate::verif_hook::short(&self.inner.root),
+            self.inner.rollback_delta.is_some() as u8,
+            id,
+            parent.map(|p| format!("{p:x}")).unwrap_or_else(|| "-".into())
+        )
     }
 }
 
